@@ -256,7 +256,7 @@ func (eng *Engine) buildVCq(fn *ssa.Function, ct *Contract, qf int) (vc *VC, err
 	}
 	vc.emit("(assert (forall ((v Int)) (! (=> (> v 0) (= (root v) v)) :pattern ((root v)))))")
 	vc.emit("(assert (= (root 0) 0))")
-	f := &frame{vc: vc, fn: fn, contract: ct, vals: map[ssa.Value]Val{}, top: true}
+	f := &frame{vc: vc, fn: fn, contract: ct, vals: map[ssa.Value]Val{}, top: true, atCallSeen: map[string]int{}}
 	f.entry = vc.baseState()
 	vc.entry = f.entry
 	f.st = f.entry
@@ -337,6 +337,14 @@ func (eng *Engine) buildVCq(fn *ssa.Function, ct *Contract, qf int) (vc *VC, err
 	co := f.obligeAt(f.R0, "cover", "pre", nil, "false", fn.Pos())
 	co.Cover = true
 	f.run()
+	if ct != nil {
+		for callee := range ct.AtCalls {
+			if f.atCallSeen[callee] == 0 {
+				o := f.obligeAt("true", "stale", "atcall."+callee, nil, "false", fn.Pos())
+				o.Src = "the contract has atcall clauses for " + callee + " but the function does not call it: contract stale"
+			}
+		}
+	}
 	// postconditions at each return
 	for ri, r := range f.rets {
 		tag := ""
@@ -501,4 +509,41 @@ func (vc *VC) smtText(only map[int]bool) string {
 		sb.WriteString("(check-sat)\n(pop 1)\n")
 	}
 	return sb.String()
+}
+
+// checkImmutables: no function of the module (other than package initialisers) stores to a variable declared immutable.
+func (eng *Engine) checkImmutables() []string {
+	var out []string
+	if len(eng.cs.Immutables) == 0 {
+		return nil
+	}
+	for _, fn := range eng.funcsByKey {
+		if fn.Name() == "init" || strings.HasPrefix(fn.Name(), "init#") {
+			continue
+		}
+		for _, b := range fn.Blocks {
+			for _, ins := range b.Instrs {
+				st, ok := ins.(*ssa.Store)
+				if !ok {
+					continue
+				}
+				var g *ssa.Global
+				switch a := st.Addr.(type) {
+				case *ssa.Global:
+					g = a
+				case *ssa.IndexAddr:
+					if ld, ok := a.X.(*ssa.UnOp); ok {
+						if gg, ok := ld.X.(*ssa.Global); ok {
+							g = gg
+						}
+					}
+				}
+				if g != nil && g.Pkg != nil && eng.cs.Immutables[g.Pkg.Pkg.Path()+"::"+g.Name()] != nil {
+					out = append(out, fmt.Sprintf("package variable %s is declared immutable in the contracts but %s stores to it (%s)", g.Name(), funcDisplay(fn), eng.fset.Position(st.Pos())))
+				}
+			}
+		}
+	}
+	sort.Strings(out)
+	return out
 }
